@@ -1,4 +1,5 @@
 import Mercure.Lemmas.Hub
+import Mercure.Lemmas.SysSafety
 /-
   C15 — Closing the hub ends every stream and rejects later operations (operation-level part;
   the interleavings of an in-flight close are in the region-level model).
@@ -43,6 +44,41 @@ theorem history_is_accepted (cfg : HubCfg) (cap : Nat) (ops : List HubOp) :
     st.db.map (·.2) = st.accepted :=
   Mercure.reach_db_accepted M tokP tokS cfg cap ops
 
+/-! ### region level: Close racing with the other operations (Mercure.Sys, every schedule) -/
+
+open Mercure.Sys in
+/-- When Close has returned, every subscriber it found registered is flagged disconnected (its
+    stream is ended, or is being ended by the thread whose send overflowed it)… -/
+theorem region_close_flags_registered (kind : Sys.Kind) (size : Nat) (subs : List Sys.Sub) (ops : List Sys.Op)
+    (wf : Sys.WellFormed subs ops) (sched : List Nat)
+    (hd : (Sys.reach Sys.Flags.repaired kind size subs ops sched).tr.onceDone = true) :
+    ∀ s ∈ (Sys.reach Sys.Flags.repaired kind size subs ops sched).tr.walked,
+      (Sys.getSub (Sys.reach Sys.Flags.repaired kind size subs ops sched) s).disconnected = true :=
+  Sys.Safety.close_flags_registered kind size subs ops wf sched hd
+
+/-- …and once every operation has returned its stream is ended, whatever was in flight when the
+    close started. -/
+theorem region_close_ends_registered (kind : Sys.Kind) (size : Nat) (subs : List Sys.Sub) (ops : List Sys.Op)
+    (wf : Sys.WellFormed subs ops) (sched : List Nat)
+    (hq : (Sys.reach Sys.Flags.repaired kind size subs ops sched).allDone = true)
+    (hd : (Sys.reach Sys.Flags.repaired kind size subs ops sched).tr.onceDone = true) :
+    ∀ s ∈ (Sys.reach Sys.Flags.repaired kind size subs ops sched).tr.walked,
+      (Sys.getSub (Sys.reach Sys.Flags.repaired kind size subs ops sched) s).outClosed = true :=
+  Sys.Safety.close_ends_registered kind size subs ops wf sched hq hd
+
+/-- Closed stays closed, and an operation that starts after the close is rejected with
+    ErrClosedTransport and changes neither the transport nor any subscriber. -/
+theorem region_after_close_rejected (σ : Sys.Sys) (i : Nat) (th : Sys.Thread) (hth : σ.threads[i]? = some th)
+    (hp : σ.panic = none) (hc : σ.tr.closedCh = true)
+    (h : (∃ u, th.stack = [.tDispatch u 0 []]) ∨ (∃ s, th.stack = [.tAdd s 0 0 [] .earliest]) ∨ (∃ s, th.stack = [.tRemove s 0])) :
+    (Sys.step σ i).σ.tr = σ.tr ∧ (Sys.step σ i).σ.subs = σ.subs ∧
+    ((Sys.step σ i).σ.threads[i]?.bind (·.ret)) = some .errClosed :=
+  Sys.Safety.after_close_rejected σ i th hth hp hc h
+
+theorem region_closed_is_stable (σ : Sys.Sys) (i : Nat) (h : σ.tr.closedCh = true) :
+    (Sys.step σ i).σ.tr.closedCh = true :=
+  Sys.Safety.closed_is_stable σ i h
+
 end Mercure.C15
 
 #print axioms Mercure.C15.close_ends_registered
@@ -51,3 +87,7 @@ end Mercure.C15
 #print axioms Mercure.C15.after_close_subscribe_rejected
 #print axioms Mercure.C15.reopen_keeps_history
 #print axioms Mercure.C15.history_is_accepted
+#print axioms Mercure.C15.region_close_flags_registered
+#print axioms Mercure.C15.region_close_ends_registered
+#print axioms Mercure.C15.region_after_close_rejected
+#print axioms Mercure.C15.region_closed_is_stable
